@@ -101,6 +101,10 @@ func (f *Frame) execInstr(in ssa.Instruction) {
 		ln := f.val(x.Len)
 		cp := f.val(x.Cap)
 		f.panicEdge(not(and("(<= 0 "+ln.T+")", "(<= "+ln.T+" "+cp.T+")")), "make_size", "slice")
+		if f.contract != nil && f.contract.AllocLimit > 0 && f.parent == nil {
+			// memory bound: what is allocated up front does not depend on an unchecked length read from the input
+			f.oblige("alloc_bounded", "slice", implies(f.pc, fmt.Sprintf("(<= %s %d)", cp.T, f.contract.AllocLimit)), nil, "")
+		}
 		elem := x.Type().Underlying().(*types.Slice).Elem()
 		heap := S.heapForSliceElem(elem)
 		o := ex.alloc(f.st, heap, x)
@@ -108,6 +112,9 @@ func (f *Frame) execInstr(in ssa.Instruction) {
 		f.defReg(x, "(mk.Slice "+o.addr+" 0 "+ln.T+" "+cp.T+")", provSet{o: {}})
 		ex.assume(implies(f.pc, "(<= "+cp.T+" 72057594037927936)"))
 	case *ssa.MakeMap:
+		if f.contract != nil && f.contract.AllocLimit > 0 && f.parent == nil && x.Reserve != nil {
+			f.oblige("alloc_bounded", "map", implies(f.pc, fmt.Sprintf("(<= %s %d)", f.val(x.Reserve).T, f.contract.AllocLimit)), nil, "")
+		}
 		mt := x.Type().Underlying().(*types.Map)
 		heap := S.heapForMap(mt)
 		mc := S.mapContent(mt)
